@@ -2,12 +2,14 @@
 mod enc;
 mod names;
 mod sess;
+mod snap;
 mod corpus;
 mod highlight;
 mod numtower;
 mod reader;
 mod synrules;
 mod gen_cmd;
+mod gcsnap;
 mod gen_alloc;
 mod gen_cont;
 mod gen_fail;
@@ -28,6 +30,8 @@ fn main() {
         "corpus" => corpus::main(&args[2..]),
         "gen" => gen_cmd::main(&args[2..]),
         "eval" => eval_file(&args[2..]),
+        "gcsnap" => gcsnap::main(&args[2..]),
+        "garbage" => gcsnap::garbage_main(&args[2..]),
         "highlight" => highlight::main(&args[2..]),
         "reader" => reader::main(&args[2..]),
         "numtower" => numtower::main(&args[2..]),
